@@ -404,5 +404,40 @@ def rule_f(ctx):
     return r
 
 
-RULES = [rule_a, rule_b, rule_c, rule_d, rule_e, rule_f]
+
+def rule_g(ctx):
+    r = RuleResult("C12-g", "one module per file whatever the spelling: the key of the module cache, the active-module set and the import cache is Fs::canonicalize of the "
+                   "resolved path, and StdFs::canonicalize is the operating system's real path on every path (no shortcut that keeps symlinks)")
+    prog = ctx.prog()
+    cz = [b for k, b in prog.bodies.items() if k.endswith("fs::Fs>::canonicalize") and "StdFs" in k]
+    if len(cz) != 1:
+        raise AnchorMissing("<StdFs as Fs>::canonicalize not found (%d)" % len(cz))
+    b = cz[0]
+    calls = [c for c in b.calls()]
+    real = [c for c in calls if (c.callee or "") == "std::fs::canonicalize"]
+    key = "StdFs::canonicalize|is-realpath"
+    rets = [(bb, rv) for bb, i, pl, rv, st in b.assignments() if pl.local == 0 and not pl.proj]
+    ok = len(real) == 1 and real[0].dest is not None and real[0].dest.local == 0 and not rets and an.trace_operand(b, real[0].args[0]).root == ("arg", 2)
+    if ok:
+        r.ok(key)
+    else:
+        r.violate(key, "StdFs::canonicalize is no longer exactly std::fs::canonicalize(path) (calls: %s; other results: %d): a path that reaches a file through a symlink keeps its "
+                  "spelling, so the same module is evaluated twice and a @use cycle through the link is not recognised" % ([c.callee for c in calls][:6], len(rets)), b.loc())
+    # the three keyed structures use the canonicalised path
+    v = prog.one("evaluate::visitor::Visitor::load_module")
+    canon = [c for c in v.calls() if (c.callee or c.name() or "").endswith("Fs::canonicalize")]
+    uses = []
+    for c in v.calls():
+        if c.args and c.args[0].place is not None:
+            a0 = an.trace_operand(v, c.args[0])
+            if a0.root == ("arg", 1) and a0.proj and a0.proj[-1] in ("active_modules", "modules") and len(c.args) > 1:
+                uses.append((a0.proj[-1], an.tail2(c.callee), repr(an.trace_operand(v, c.args[1], through_calls=False))))
+    if canon and uses and all("unwrap_or" in u[2] or "canonic" in u[2] or "clone" in u[2] for u in uses):
+        r.ok("load_module|keys-are-canonical", uses=["%s.%s" % (u[0], u[1]) for u in uses])
+    else:
+        r.violate("load_module|keys-are-canonical", "load_module no longer keys active_modules / modules by the canonicalised URL (%s)" % uses, v.loc())
+    return r
+
+
+RULES = [rule_a, rule_b, rule_c, rule_d, rule_e, rule_f, rule_g]
 
